@@ -13,25 +13,25 @@ variable {α : Type} (f : α → Nat)
 /-- The comparison of all `sort.Slice(…, key(i) > key(j))` calls. -/
 def gtBy (a b : α) : Bool := decide (f a > f b)
 
-theorem insertBy_perm (lt : α → α → Bool) (x : α) : ∀ l : List α, (insertBy lt x l).Perm (x :: l)
+theorem combos_insertBy_perm (lt : α → α → Bool) (x : α) : ∀ l : List α, (insertBy lt x l).Perm (x :: l)
   | [] => List.Perm.refl _
   | y :: ys => by
     rw [insertBy]
     split
     · exact List.Perm.refl _
-    · exact ((insertBy_perm lt x ys).cons y).trans (List.Perm.swap x y ys)
+    · exact ((combos_insertBy_perm lt x ys).cons y).trans (List.Perm.swap x y ys)
 
-theorem foldl_insertBy_perm (lt : α → α → Bool) :
+theorem combos_foldl_insertBy_perm (lt : α → α → Bool) :
     ∀ (l acc : List α), (l.foldl (fun acc x => insertBy lt x acc) acc).Perm (acc ++ l)
   | [], acc => by simp
   | x :: t, acc => by
     rw [List.foldl_cons]
-    refine (foldl_insertBy_perm lt t _).trans ?_
-    refine ((insertBy_perm lt x acc).append_right t).trans ?_
+    refine (combos_foldl_insertBy_perm lt t _).trans ?_
+    refine ((combos_insertBy_perm lt x acc).append_right t).trans ?_
     simpa using (List.perm_middle (a := x) (l₁ := acc) (l₂ := t)).symm
 
-theorem isort_perm (lt : α → α → Bool) (l : List α) : (isort lt l).Perm l := by
-  simpa [isort] using foldl_insertBy_perm lt l []
+theorem combos_isort_perm (lt : α → α → Bool) (l : List α) : (isort lt l).Perm l := by
+  simpa [isort] using combos_foldl_insertBy_perm lt l []
 
 theorem insertBy_of_all_ge (x : α) : ∀ (l : List α), (∀ y ∈ l, f y ≥ f x) → insertBy (gtBy f) x l = l ++ [x]
   | [], _ => rfl
@@ -75,39 +75,39 @@ theorem insertBy_sorted (x : α) : ∀ (l : List α), l.Pairwise (fun a b => f a
       have hxy : ¬ f x > f y := by simpa [gtBy] using hlt
       refine List.pairwise_cons.mpr ⟨?_, insertBy_sorted x ys hys⟩
       intro z hz
-      have hz' := (insertBy_perm (gtBy f) x ys).mem_iff.mp hz
+      have hz' := (combos_insertBy_perm (gtBy f) x ys).mem_iff.mp hz
       rcases List.mem_cons.mp hz' with rfl | hz'
       · omega
       · exact hy z hz'
 
-theorem foldl_insertBy_sorted :
+theorem combos_foldl_insertBy_sorted :
     ∀ (l acc : List α), acc.Pairwise (fun a b => f a ≥ f b) →
       (l.foldl (fun acc x => insertBy (gtBy f) x acc) acc).Pairwise (fun a b => f a ≥ f b)
   | [], _, h => h
   | x :: t, acc, h => by
     rw [List.foldl_cons]
-    exact foldl_insertBy_sorted t _ (insertBy_sorted f x acc h)
+    exact combos_foldl_insertBy_sorted t _ (insertBy_sorted f x acc h)
 
-theorem isort_sorted (l : List α) : (isort (gtBy f) l).Pairwise (fun a b => f a ≥ f b) :=
-  foldl_insertBy_sorted f l [] List.Pairwise.nil
+theorem combos_isort_sorted (l : List α) : (isort (gtBy f) l).Pairwise (fun a b => f a ≥ f b) :=
+  combos_foldl_insertBy_sorted f l [] List.Pairwise.nil
 
 theorem isort_of_sorted (l : List α) (h : l.Pairwise (fun a b => f a ≥ f b)) : isort (gtBy f) l = l := by
   simpa [isort] using foldl_insertBy_of_sorted f l [] (by simpa using h)
 
 theorem isort_idem (l : List α) : isort (gtBy f) (isort (gtBy f) l) = isort (gtBy f) l :=
-  isort_of_sorted f _ (isort_sorted f l)
+  isort_of_sorted f _ (combos_isort_sorted f l)
 
 end isort
 
 theorem sortCards_eq (cards : List Card) : sortCards cards = isort (gtBy (·.rank)) cards := rfl
 
-theorem sortCards_perm (cards : List Card) : (sortCards cards).Perm cards := isort_perm _ _
+theorem sortCards_perm (cards : List Card) : (sortCards cards).Perm cards := combos_isort_perm _ _
 
 theorem sortCards_idem (cards : List Card) : sortCards (sortCards cards) = sortCards cards := by
   simp only [sortCards_eq]; exact isort_idem _ _
 
 theorem sortCards_sorted (cards : List Card) : (sortCards cards).Pairwise (fun a b => a.rank ≥ b.rank) := by
-  rw [sortCards_eq]; exact isort_sorted _ _
+  rw [sortCards_eq]; exact combos_isort_sorted _ _
 
 /-- Evaluating the cards `CalculatePower` reports gives the very same power state. -/
 theorem calculatePower_cards (lvl : Cat → Nat) (pr : List Cat) (cards : List Card) :
